@@ -90,7 +90,11 @@ func (pc *PubkeyCache) ValidatorIndex(pubkey BLSPubkey) (index ValidatorIndex, o
 func (pc *PubkeyCache) unsafeValidatorIndex(pubkey BLSPubkey) (index ValidatorIndex, ok bool) {
 	index, ok = pc.pub2idx[pubkey]
 	if !ok && pc.parent != nil {
-		return pc.parent.ValidatorIndex(pubkey)
+		index, ok = pc.parent.ValidatorIndex(pubkey)
+		// only the history up to the fork-out point is shared with the parent
+		if ok && index >= pc.trustedParentCount {
+			return 0, false
+		}
 	}
 	return index, ok
 }
